@@ -232,3 +232,10 @@ more("C15", "JSON values include reals that need 16-17 significant digits, integ
 more("C17", "Scenarios that append to a keyring in use (jwks_load / jwks_load_strn into a set whose first key a checker points to): whatever happens to the append, the older key stays the first item and still verifies.")
 more("C19", "Two more operations: replacements of exp / iss / alg by strings that are not UTF-8 (refused by the library, still an edit attempt on the handed jwt_t).")
 more("C20", "stdin lines of every length within 6 of 8192, 16384, 32768 and 65536 characters, each followed by a failing line, by a good one, and in the middle of a list.")
+
+# ---- round 15 (history-dependent changes: what an earlier call left on the same object) ----
+more("C04", "The token a checker accepted last comes back as the very same string: 1 s .. 2^31 s later on the clock, and after the configuration calls the history made in between; each verification is judged by the clock and configuration of its own moment.")
+more("C08", "A third of the imports go into a set that is being refreshed: a key rich in metadata (use, key_ops, alg, kid, curve) is loaded and dropped by jwks_item_free before the key under test is loaded into the same set.")
+more("C14", "A quarter of the typed reads reuse a jwt_value_t that carries a refused read (another member, not found) without running the set-up macro again: return code and value.error still agree.")
+more("C15", "Random sequences include a member that holds a number followed by a set-with-replace of an integer that is a near miss of it (1.0/1, -0.0/0, 1e2/100, neighbours beyond 2^53 and at the int64 ends, true/1, \"7\"/7); a quarter of the reads reuse a jwt_value_t that carries a refused read.")
+more("C19", "After every refusing callback the same checker verifies the same token and another token again: each non-zero return fails its own verification.")
